@@ -311,9 +311,11 @@ def gen_random(rng, count):
                 p["rs"] = rs
             if big and any(abs(x) >= (1 << 63) for c in a for x in c):
                 bes = [b for b in bes if b.startswith("ntt120")]
+            p["scr"] = rng.choice([0, 0, 5, -3, 1 << 40, -(1 << 62)])
             cases.append(Case(op, p, a, res, cls, bes))
         elif op == "normalize_assign":
-            cases.append(Case(op, {"b": ab}, [gen_coef(rng, cls, ab, a_size, False) for _ in range(n)], None, cls, bes))
+            cases.append(Case(op, {"b": ab, "scr": rng.choice([0, 0, 5, -3, 1 << 40, -(1 << 62)])},
+                              [gen_coef(rng, cls, ab, a_size, False) for _ in range(n)], None, cls, bes))
         else:
             w = ab * a_size + 2 * ab
             k = rng.range(0, w) if rng.chance(2, 3) else rng.choice([0, ab, ab - 1, ab + 1, ab * a_size, ab * rs, ab * rs + 1, w])
@@ -323,7 +325,7 @@ def gen_random(rng, count):
             a = [gen_coef(rng, cls, ab, a_size, False) for _ in range(n)]
             if op.endswith("_assign"):
                 # the scratch area is not the caller's to clean: a dirty scratch (scr != 0) must not matter
-                p = {"b": ab, "k": k, "scr": rng.choice([0, 0, 5, -3, 1 << 40])}
+                p = {"b": ab, "k": k, "scr": rng.choice([0, 0, 5, -3, 1 << 40, -(1 << 62)])}
                 cases.append(Case(op, p, a, None, cls, bes))
             else:
                 if op in ("lsh", "rsh"):
@@ -331,7 +333,7 @@ def gen_random(rng, count):
                 else:
                     rcls = rng.choice(["normalised", "out-of-range", "zero", "all-min", "all-max"])
                     res = [gen_coef(rng, rcls, ab, rs, False) for _ in range(n)]
-                cases.append(Case(op, {"b": ab, "k": k}, a, res, cls, bes))
+                cases.append(Case(op, {"b": ab, "k": k, "scr": rng.choice([0, 0, 5, -3, 1 << 40, -(1 << 62)])}, a, res, cls, bes))
     return cases
 
 
